@@ -123,9 +123,12 @@ def shrink_rec(r, same, budget=120):
         return r
 
 
-def judge(res, recs, broken_model, want_tags=False, label="prog"):
-    """common classification; returns list of records that agree (for property-specific oracles)"""
+def judge(res, recs, broken_model, want_tags=False, label="prog", ntemplates=0):
+    """common classification; returns list of records that agree (for property-specific oracles).
+    The first `ntemplates` records come from hand-written templates (a fixed, seed-independent set): for those
+    a listed finding only excuses the programs it names (see vlib.finish / `template_witnesses`)."""
     good = []
+    origin_of = {id(r): ("template" if k < ntemplates else "generated") for k, r in enumerate(recs)}
     nshrunk = 0
     for r in recs:
         res.evaluations += 1
@@ -150,7 +153,7 @@ def judge(res, recs, broken_model, want_tags=False, label="prog"):
                 res.count("excused:error-only-with-visible-constants")
                 res.violation("implementation fails with %s only while constants are visible to the folder: `%s`" % (r.ivalue, r.src[:200]),
                               dict(program=r.src, flags=r.flags, impl=r.impl, model=r.model),
-                              dict(oracle="twin", cls="error-only-when-constants-visible"))
+                              dict(oracle="twin", cls="error-only-when-constants-visible", origin=origin_of[id(r)]))
                 continue
             rr = r
             if nshrunk < 3:
@@ -202,7 +205,7 @@ def stream(res, tier, seed, broken_model, n_quick, n_thorough, features=None, te
     for k, v in stats.items():
         res.dist["gen:" + k] = res.dist.get("gen:" + k, 0) + v
     res.streams[label] = dict(programs=len(progs), templates=len(templates))
-    good = judge(res, recs, broken_model, want_tags=want_tags, label=label)
+    good = judge(res, recs, broken_model, want_tags=want_tags, label=label, ntemplates=len(templates))
     for r in recs[len(templates):len(templates) + 2] + recs[:1]:
         if len(res.samples) < 4:
             res.samples.append(dict(program=r.src[:600], impl=r.impl[:300], model=r.model[:300]))
